@@ -84,8 +84,9 @@ func randPolicy(r *Rng) simrt.Policy {
 		return simrt.Policy{Kind: simrt.PolReverse}
 	case 3:
 		return simrt.Policy{Kind: simrt.PolRotate, Seed: uint64(1 + r.Intn(5))}
-	case 4, 5:
-		return simrt.Policy{Kind: simrt.PolPerRange, Seed: r.U64() >> 8}
+	// (the per-range policy is used by C15 only: its order depends on how many
+	// range statements ran before, which a correct change may alter between a
+	// call and its reference evaluation, and C06/C07 compare outcomes exactly)
 	default:
 		return simrt.Policy{Kind: simrt.PolHash, Seed: r.U64() >> 8}
 	}
